@@ -55,6 +55,8 @@ fn fields_scenario(name: String, params: Value) -> Scenario {
         let mut sys = Sys::new("C07", &name, chz);
         sys.params = params.clone();
         sys.m.check_client_acks = false;
+        // (the broker uses topic alias 65535: the client must have allowed that many)
+        sys.base_connect.topic_alias_maximum = Some(65535);
         sys.bring_up(vec![]);
         sys.apply(Ev::Start(OpSpec::Subscribe(SubscribeSpec::simple("s/a"))));
         if sys.dead {
@@ -107,7 +109,8 @@ fn fields_scenario(name: String, params: Value) -> Scenario {
         let payload = match payload_kind {
             0 => vec![],
             1 => b"x".to_vec(),
-            _ => vec![0xab; 700],
+            // (with Payload Format Indicator 1 the payload is text: a receiver may validate it)
+            _ => vec![if mask & 1 != 0 { b'b' } else { 0xab }; 700],
         };
         sys.apply(Ev::Deliver(SPacket::Publish {
             dup,
